@@ -3,6 +3,7 @@ package main
 // VC assembly and solver racing.
 
 import (
+	"regexp"
 	"bytes"
 	"context"
 	"fmt"
@@ -181,7 +182,62 @@ func (P *Prog) assemble(decls []string, lemmaAx []string, body string, excludeAx
 	}
 	sb.WriteString(body)
 	sb.WriteString("(check-sat)\n")
-	return sb.String()
+	return pruneDatatypes(sb.String())
+}
+
+var dtDeclRE = regexp.MustCompile(`^\(declare-datatypes \(\((S_[A-Za-z0-9_$]+) 0\)\)`)
+
+// pruneDatatypes drops struct datatype declarations that nothing in the query refers to, so that the text of a
+// verification condition does not depend on which other functions were processed before it (the set of struct
+// sorts known to the program grows as functions are visited).
+func pruneDatatypes(text string) string {
+	lines := strings.Split(text, "\n")
+	type dt struct {
+		idx  int
+		name string
+	}
+	var dts []dt
+	for i, l := range lines {
+		if m := dtDeclRE.FindStringSubmatch(l); m != nil {
+			dts = append(dts, dt{i, m[1]})
+		}
+	}
+	if len(dts) == 0 {
+		return text
+	}
+	drop := map[int]bool{}
+	for changed := true; changed; {
+		changed = false
+		for _, d := range dts {
+			if drop[d.idx] {
+				continue
+			}
+			used := false
+			for i, l := range lines {
+				if i == d.idx || drop[i] {
+					continue
+				}
+				if strings.Contains(l, d.name) {
+					used = true
+					break
+				}
+			}
+			if !used {
+				drop[d.idx] = true
+				changed = true
+			}
+		}
+	}
+	if len(drop) == 0 {
+		return text
+	}
+	out := lines[:0:0]
+	for i, l := range lines {
+		if !drop[i] {
+			out = append(out, l)
+		}
+	}
+	return strings.Join(out, "\n")
 }
 
 type solverSpec struct {
